@@ -250,6 +250,9 @@ class VCSAPI:
         #   backslash, "*", "?", "[" and a leading ":" have a special meaning.
         env: Env = os.environ.copy()
         env['GIT_LITERAL_PATHSPECS'] = "1"
+        # NOTE: git refuses the combination with any of these
+        for name in ("GIT_GLOB_PATHSPECS", "GIT_NOGLOB_PATHSPECS", "GIT_ICASE_PATHSPECS"):
+            env.pop(name, None)
         try:
             self('add_path', env=env, path=path)
         except sp.CalledProcessError as ex:
